@@ -20,6 +20,8 @@ UNITS = [
     U("ctor_copy", None, None, ["ctor_copy.share", "ctor_copy.deep"], funcs=["String::String(const String&)"]),
     U("ctor_buf", "String::String(this|ptr_const_char|unsigned_long_int)", "c_String_ctor_buf", ["ctor_buf.return"]),
     U("ctor_cap", "String::String(this|unsigned_long_int)", "c_String_ctor_cap", ["ctor_cap.return"]),
+    U("ctor_fill", "String::String(this|unsigned_long_int|char)", "c_String_ctor_fill", ["ctor_fill.return"],
+      loops="contracts/string_ctorfill.loops.json"),
     U("dtor", "w_String_dtor", None, ["dtor.last", "dtor.shared"], funcs=["String::~String"]),
     U("assign_op", "String::operator=(this|%s)" % CREF, "c_String_assign_op", ["assign_op.share", "assign_op.deep"], defs=["NV_ALIAS=0"]),
     U("assign_op@self", "String::operator=(this|%s)" % CREF, "c_String_assign_op", ["assign_op.self"], defs=["NV_ALIAS=1"]),
